@@ -119,10 +119,10 @@ class ProfileMachine(Machine):
                 'mask': enc(g.random(data.shape) < 0.08), 'xycen': xy,
                 'radii': radii}
 
-    def build(self, cfg, sc):
+    def build(self, cfg, sc, data_obj=None):
         import astropy.units as u
         from photutils.profiles import CurveOfGrowth, RadialProfile
-        data = dec(sc['data']).copy()
+        data = dec(sc['data']).copy() if data_obj is None else data_obj
         err = dec(sc['error']).copy() if cfg['error'] else None
         if cfg['unit']:
             data = data * u.Jy
@@ -200,7 +200,10 @@ class ProfileMachine(Machine):
         st = _St()
         st.stats, st.trace, st.cfg = stats, trace, plan['cfg']
         st.scene = plan['scene']
-        st.obj = call(self.build, st.cfg, st.scene)
+        # the caller's image array: one object for the whole run (it is
+        # edited in place between two constructions by 'rebuild')
+        st.data_obj = dec(st.scene['data']).copy()
+        st.obj = call(self.build, st.cfg, st.scene, st.data_obj)
         st.dead = isinstance(st.obj, Raised)
         if st.dead:
             stats.probe('constructor_rejected_config')
@@ -233,6 +236,16 @@ class ProfileMachine(Machine):
                     'method': rng.pick(['max', 'sum', 'max', 'bogus'])}
         if r < 0.86:
             return {'op': 'unnormalize'}
+        if r < 0.875:
+            # the caller repairs or flags a pixel of its image *in place* and
+            # builds a new profile object from the same array
+            xy = st.scene['xycen']
+            shp = st.data_obj.shape
+            return {'op': 'rebuild',
+                    'pix': [min(shp[0] - 1, max(0, int(xy[1]) + rng.randint(
+                        -3, 3))), min(shp[1] - 1, max(0, int(xy[0])
+                                                      + rng.randint(-3, 3)))],
+                    'value': rng.pick(['nan', 'nan', 'finite'])}
         if r < 0.89:
             # another object of the same class around the same centre, on
             # another image with masked and non-finite pixels, at work in
@@ -389,6 +402,27 @@ class ProfileMachine(Machine):
                     self._check_array(st, a, v, where + ' (restored)')
                     st.read.add(a)
             return
+        if kind == 'rebuild':
+            y, x = op['pix']
+            d = st.data_obj
+            if not (0 <= y < d.shape[0] and 0 <= x < d.shape[1]):
+                raise Inapplicable('pixel')
+            if op['value'] == 'nan' and d.dtype.kind == 'f':
+                d[y, x] = np.nan
+            else:
+                d[y, x] = 2 if d.dtype.kind != 'f' else 1.5
+            st.scene = dict(st.scene, data=enc(d))
+            new = call(self.build, st.cfg, st.scene, d)
+            if isinstance(new, Raised):
+                raise Violation('raises', 'constructor',
+                                f'rebuilding from the edited image: {new!r}')
+            st.obj = new
+            st.ref = self._reference(st.cfg, st.scene)
+            st.f, st.nnorm, st.read, st.degenerate = 1.0, 0, set(), False
+            st.hist = ['rebuilt']
+            st.rebuilt = True        # the image is no longer 'constant'
+            st.stats.probe('rebuilt_from_same_array_edited_in_place')
+            return
         if kind == 'decoy':
             sc2 = dict(st.scene)
             d = dec(st.scene['data']).astype(float) * 1.3 + 0.7
@@ -418,7 +452,7 @@ class ProfileMachine(Machine):
             return
         got = self._val(val)
         if cfg['kind'] == 'constant' and self.variant == 'radial' and \
-                not cfg['nan']:
+                not cfg['nan'] and not getattr(st, 'rebuilt', False):
             c = float(dec(st.scene['data']).flat[0])
             if cfg.get('int_data'):
                 st.stats.probe('constant_integer_image')
